@@ -227,28 +227,24 @@ func Bind(r *Rule, desc protoreflect.MessageDescriptor, newMsg func(protoreflect
 			return nil, err
 		}
 	}
-	q, err := url.ParseQuery(rawQuery)
-	if err != nil {
-		// net/url drops malformed pairs; mirror that: parse what can be parsed
-		q = url.Values{}
-		for _, pair := range strings.Split(rawQuery, "&") {
-			k, v, _ := strings.Cut(pair, "=")
-			ku, e1 := url.QueryUnescape(k)
-			vu, e2 := url.QueryUnescape(v)
-			if e1 == nil && e2 == nil && pair != "" {
-				q.Add(ku, vu)
-			}
+	// query parameters, in the order in which they stand in the query (pairs that net/url
+	// would drop - bad escapes, a semicolon - are dropped)
+	for _, pair := range strings.Split(rawQuery, "&") {
+		if pair == "" || strings.Contains(pair, ";") {
+			continue
 		}
-	}
-	for k, vals := range q {
-		fds, err := resolve(desc, k)
+		k, v, _ := strings.Cut(pair, "=")
+		ku, e1 := url.QueryUnescape(k)
+		vu, e2 := url.QueryUnescape(v)
+		if e1 != nil || e2 != nil {
+			continue
+		}
+		fds, err := resolve(desc, ku)
 		if err != nil {
 			return nil, fmt.Errorf("%w: %v", ErrInvalid, err)
 		}
-		for _, v := range vals {
-			if err := setParam(mr, fds, v); err != nil {
-				return nil, err
-			}
+		if err := setParam(mr, fds, vu); err != nil {
+			return nil, err
 		}
 	}
 	return msg, nil
